@@ -975,8 +975,14 @@ class Interp:
                     v = self.materialise(v, st)
                     ho.fields[attr] = v
                     return v
-                if ho.cls is not None and ho.cls.ext_bases and not ho.symbolic:
+                if ho.cls is not None and ho.cls.ext_bases and not ho.symbolic and not ho.name:
                     return ("extmeth", base, attr)
+                if ho.name:
+                    # attribute that no modelled constructor sets: state lingering from elsewhere
+                    st.events.append(Event("readattr", f"{ho.name}.{attr}", (), (), ctx.loc(node), ctx.fi.key if ctx.fi else "", pc_len=len(st.pc)))
+                    v = ("sym", f"{ho.name}.{attr}", "any")
+                    ho.fields[attr] = v
+                    return v
                 raise AnalysisError(f"attribute {attr} not set on {self.describe(base, st)} at {ctx.loc(node)}")
             return ("extmeth", base, attr)
         if t == "sym":
@@ -1316,7 +1322,7 @@ def _benign_event(e: Event, st: State) -> bool:
         return True  # checked by write-effect rules separately; fresh-object stores are the norm
     if e.kind == "call" and e.target.startswith("logger."):
         return True
-    if e.kind in ("caught", "iter"):
+    if e.kind in ("caught", "iter", "readattr"):
         return True
     return False
 
